@@ -893,16 +893,20 @@ def _skip_event(*events, **kwargs):
                 continue
             else:
                 return False
+        changes = False
         for p, what in subpaths:
             old = before[(p, what)] if (p, what) in before else _reached(e.old, p, what)
             new = _reached(e.new, p, what)
             if (p, what) in after and after[(p, what)] is not new and not Comparator.is_equal(after[(p, what)], new):
                 # changed since the object was attached: its own watchers
                 # have announced that (or will), and the method sees
-                # everything there is to see when it runs for them
-                return True
-            if not Comparator.is_equal(old, new):
-                differs = True
+                # everything there is to see through this object when it
+                # runs for them
+                changes = False
+                break
+            if old is not new and not Comparator.is_equal(old, new):
+                changes = True
+        differs = differs or changes
     return not differs
 
 
@@ -3330,7 +3334,11 @@ class Parameters:
             name = getattr(function, '__name__', None)
             reached = dict((getattr(event, 'reached', None) or {}).get(name, {})) if own else {}
             entered = dict((getattr(event, 'entered', None) or {}).get(name, {})) if own else {}
-            if keywords and keywords.get('changed') is not None:
+            if event.old is event.new:
+                # (the very same object: nothing is replaced, the watchers
+                # on it keep announcing what changes)
+                reached, entered = {}, {}
+            elif keywords and keywords.get('changed') is not None:
                 # A method depending on something reached through the
                 # object being replaced: whether that changes is judged at
                 # the end of the batch, against what is reached now
@@ -3381,7 +3389,7 @@ class Parameters:
                     # that meanwhile (and the method saw all there was).
                     reached = getattr(event, 'reached', None) or {}
                     chain = None
-                    if queued_watcher is not None and _is_m_caller(queued_watcher.fn):
+                    if queued_watcher is not None and _is_m_caller(queued_watcher.fn) and event.old is not event.new:
                         entered = getattr(event, 'entered', None) or {}
                         method = _method_of(queued_watcher.fn)
                         chain = chains.get((key, method))
